@@ -34,7 +34,9 @@ private:
   void Declarative(SyntaxTree::Node& root);
   void Function(SyntaxTree::Node& func);
 
-  static void EnumDeclaration(SyntaxTree::Node& quant);
+  void EnumDeclaration(SyntaxTree::Node& quant);
+  void CollectLocalNames(const SyntaxTree::Node& target, NameSubstitutes& names);
+  static void RenameLocals(SyntaxTree::Node& target, const NameSubstitutes& names);
   void TupleDeclaration(SyntaxTree::Node& declaration, SyntaxTree::Node& predicate);
 
   [[nodiscard]] std::string ProcessTupleDeclaration(SyntaxTree::Node& root);
